@@ -276,7 +276,6 @@ def _chunks(lst, n):
 
 
 def run(tier: str, seed: int) -> dict:
-    import multiprocessing as mp
     import random
     import cobra
     _quiet()
@@ -288,12 +287,29 @@ def run(tier: str, seed: int) -> dict:
         cases += [(f, s, i, cfgb) for f, s, i in base if (i + j) % 4 == 0]
     random.Random(seed).shuffle(cases)
     units = [(c,) for c in _chunks(cases, 8)]
-    ctx = mp.get_context("fork")
-    with ctx.Pool(min(16, os.cpu_count() or 1)) as pool:
-        res = list(pool.imap_unordered(_unit, units, chunksize=1))
+    res = []
+    crashes = []
+    first = gen_io.run_units(_unit, units)
+    retry = []
+    for u, r in zip(units, first):
+        if isinstance(r, gen_io.Crashed):
+            retry.extend(([c],) for c in u[0])       # find the culprit: one case per process
+        else:
+            res.append(r)
+    if retry:
+        for u, r in zip(retry, gen_io.run_units(_unit, retry)):
+            if isinstance(r, gen_io.Crashed):
+                fam, sd, idx, config = u[0][0]
+                crashes.append({"key": "io:process-aborted",
+                                "failure": f"the process checking model ({fam}, {sd}, {idx}, config={config}) died with exit code "
+                                           f"{r.exitcode}",
+                                "replay": {"kind": "model", "family": fam, "seed": sd, "index": idx, "key": "io:process-aborted",
+                                           "config": list(config) if config is not None else None}})
+            else:
+                res.append(r)
     assert cobra.Configuration().bounds == before
     n = models = 0
-    fails, samples = [], []
+    fails, samples = list(crashes), []
     for r in res:
         n += r["n"]
         models += r["models"]
@@ -328,9 +344,8 @@ def run(tier: str, seed: int) -> dict:
     }
 
 
-def replay(payload_replay: dict):
+def _replay_inner(p):
     _quiet()
-    p = payload_replay
     tmp = _tmpdir()
     try:
         v = [(p["variant"], bool(p["sort"]), p.get("extra"))] if p.get("variant") else None
@@ -339,3 +354,11 @@ def replay(payload_replay: dict):
         shutil.rmtree(tmp, ignore_errors=True)
     hit = [f for f in fails if f["key"] == p.get("key")] or fails
     return hit[0]["failure"] if hit else None
+
+
+def replay(payload_replay: dict):
+    """runs in a forked child (a replayed case may abort the process, and the Configuration singleton stays untouched)"""
+    r = gen_io.run_units(_replay_inner, [payload_replay], nproc=1)[0]
+    if isinstance(r, gen_io.Crashed):
+        return f"the checking process died with exit code {r.exitcode}"
+    return r
